@@ -26,8 +26,9 @@ def check(ctx, rep):
     A.rule_loop(m, rep, 'R3')
     A.rule_task_closure(m, rep, 'R3', parts=('once',))
     B.rule_task_own_panics(m, rep, 'R3')
+    B.rule_loop_own_panics(m, rep, 'R3')
     B.rule_panics_getter(m, rep)
-    A.rule_counters(m, rep)
+    A.rule_counters(m, rep, only=('panics',))
     from ..report import Report
     flag = B.rule_stop(m, Report('scratch'))      # only to learn whether a stop flag exists
     B.rule_run_exit(m, rep, flag, only=('R1b',))
